@@ -389,9 +389,12 @@ def gen_fs_ifft(repo):
     if dflt != ["None"]:
         raise Unsupported("kernels.nb_irfft default length changed")
 
+    forms = []
+
     def ifftn(tr, call):
         if call.keywords or len(call.args) not in (1, 2):
             raise Unsupported("ifftn call form: " + ast.unparse(call))
+        forms.append(len(call.args) == 2)
         a, ta = tr.ex(call.args[0])
         if ta != "S":
             raise Unsupported("ifftn argument type")
@@ -425,10 +428,39 @@ def gen_fs_ifft(repo):
     chk = _find_fn(repo, "sigpyproc/timeseries.py", "_check_input", "TimeSeries")
     if "if len(self.data) != self.header.nsamples:" not in ast.unparse(chk):
         raise Unsupported("TimeSeries._check_input no longer compares len(data) with header.nsamples")
+    if len(forms) != 1:
+        raise Unsupported(f"FourierSeries.ifft calls the inverse {len(forms)} times, expected exactly once")
     return ("(* from FourierSeries.ifft: the array handed to TimeSeries(...); the header (nsamples) is passed on unchanged *)\n"
             "Definition fs_ifft_run (data : S) (hdr_nsamples : Z) : list Z :=\n" + "\n".join(out) + f"\n  {ret}.\n"
+            "(* does the call `ifftn(...)` in FourierSeries.ifft hand a length to the inverse?  (read off the call; what it MEANS for\n"
+            "   fs_ifft_run is proved, for either value, in Proofs/C12_wrap.v: fs_ifft_flag_spec) *)\n"
+            f"Definition fs_ifft_passes_length : bool := {'true' if forms[0] else 'false'}.\n"
             "(* from TimeSeries._check_input: construction succeeds iff len(data) == header.nsamples *)\n"
             "Definition ts_check (data : list Z) (hdr_nsamples : Z) : bool := (len data =? hdr_nsamples).\n")
+
+
+def gen_wrappers(repo):
+    """kernels.nb_rfft / nb_irfft: `return np.fft.rfft(arr, n)` / `return np.fft.irfft(arr, n)` with `n: int | None = None`.
+    NumPy semantics of n=None: rfft -> the input length; irfft -> 2 * (bins - 1)  (Model/C12_np.v np_irfft_default_len)."""
+    out = []
+    for name, body, typ, dflt_len, call in (("nb_rfft", "np.fft.rfft(arr, n)", "list Z", "(len arr_)", "rfft"),
+                                            ("nb_irfft", "np.fft.irfft(arr, n)", "S", "(np_irfft_default_len (slen arr_))", "irfft")):
+        if _wrapper_is(repo, name, body) != ["arr", "n"]:
+            raise Unsupported(f"kernels.{name} signature changed")
+        fn = _find_fn(repo, "sigpyproc/core/kernels.py", name)
+        _decorated_njit(fn)
+        a = fn.args
+        if a.vararg or a.kwarg or a.kwonlyargs or a.posonlyargs or [ast.unparse(d) for d in a.defaults] != ["None"]:
+            raise Unsupported(f"kernels.{name}: the length is no longer an optional second parameter defaulting to None")
+        ann = ast.unparse(a.args[1].annotation) if a.args[1].annotation is not None else ""
+        if ann not in ("int | None", "Optional[int]"):
+            raise Unsupported(f"kernels.{name}: annotation of n is {ann!r}")
+        res = "S" if name == "nb_rfft" else "list Z"
+        out.append(f"(* from kernels.{name}: `return {body}`, n: int | None = None (NumPy: None -> "
+                   + ("the input length" if name == "nb_rfft" else "2 * (bins - 1)") + ") *)\n"
+                   f"Definition {name}_run (arr_ : {typ}) (n : option Z) : {res} :=\n"
+                   f"  {call} arr_ (match n with Some k => k | None => {dflt_len} end).\n")
+    return "\n".join(out)
 
 
 def gen_correlate(repo):
@@ -516,7 +548,7 @@ def gen_fftops(repo="/repo"):
     out = [HEADER % "sigpyproc/core/kernels.py, sigpyproc/timeseries.py, sigpyproc/fourierseries.py", "Section FftOps.", SECTION_VARS]
     errors = []
     for name, g in (("fftconvolve", gen_fftconvolve), ("TimeSeries.rfft", gen_ts_rfft), ("FourierSeries.ifft", gen_fs_ifft),
-                    ("TimeSeries.correlate", gen_correlate), ("form_mspec", gen_form_mspec)):
+                    ("TimeSeries.correlate", gen_correlate), ("nb_rfft / nb_irfft", gen_wrappers), ("form_mspec", gen_form_mspec)):
         try:
             out.append(g(repo))
         except Unsupported as e:
